@@ -8,7 +8,7 @@ OUT=${RECHECK_OUT:-$OUT}   # optional: RECHECK_OUT, SEED_DIRS (list of seeded/<I
 : > $OUT
 for d in ${SEED_DIRS:-seeded/C*-v*}; do
   s=$(basename $d); id=${s%%-*}
-  case "$s" in C06-v4) id=C03;; esac
+  case "$s" in C06-v4|C16-v13) id=C03;; esac
   line=$(tools/try_seed_scratch.sh $d/patch.diff - $id 2>&1 | grep "^check $id")
   rc=$(echo "$line" | sed -n 's/.*rc=\([0-9]*\).*/\1/p')
   echo -e "$s\t$id\t$rc" | tee -a $OUT
